@@ -47,9 +47,10 @@ Theorem insert_exact :
                    exec_write sch (abs_db st) (SIns t rows) = (ok, abs_db st') /\ Inv sch st'.
 Proof. exact insert_exact_l. Qed.
 
-(* row selection: outside class 11 the rows a DELETE / UPDATE works on -- collected by the cursor
-   scan or through the primary-key index with its fall-back -- are exactly the live rows that pass
-   the WHERE clause *)
+(* row selection: the rows a DELETE / UPDATE works on -- collected by the cursor scan (which skips
+   tombstones since 6de60fd) or through the primary-key index with its fall-back -- are exactly
+   the live rows that pass the WHERE clause (the hypothesis has_dead = false always holds on the
+   repaired model: both paths test the delete bit; it is kept because the lemma is shared) *)
 Theorem selection_exact :
   forall ds ts next w,
     tinv ds ts next -> uniq_ok ds (visible ts) = true ->
@@ -58,10 +59,13 @@ Theorem selection_exact :
 Proof. exact select_rows_live. Qed.
 
 (* DELETE: for every well-formed schema, every state satisfying the invariant and every DELETE
-   outside the recorded classes (11 tombstone selected, 16 deleted child matched, 17 NULL = NULL,
-   19 cascade over a child row holding key values): the implementation refuses iff a child row
-   under RESTRICT / NO ACTION would lose its parent, removes with ON DELETE CASCADE exactly the
-   child rows the reference removes, leaves the reference's tables and keeps the invariant *)
+   satisfying the side condition stmt_class = 0 (for DELETE: no cascade over a child row that
+   holds non-NULL key values -- condition 19, a limit of this proof since 8b67bbd removes those
+   index entries, not an open defect; the former classes 11 tombstone selected, 16 deleted child
+   matched, 17 NULL = NULL are repaired and no longer excluded): the implementation refuses iff a
+   child row under RESTRICT / NO ACTION would lose its parent, removes with ON DELETE CASCADE
+   exactly the child rows the reference removes, leaves the reference's tables and keeps the
+   invariant *)
 Theorem delete_exact :
   forall sch st t w,
     wf_schema sch -> Inv sch st -> stmt_class sch st (SDel t w) = 0 ->
@@ -70,10 +74,13 @@ Theorem delete_exact :
 Proof. exact delete_exact_l. Qed.
 
 (* UPDATE: for every well-formed schema, every state satisfying the invariant and every UPDATE
-   SET column = literal, ... [WHERE ...] outside the recorded classes (11 tombstone selected, 12 a
-   non-NULL value for a key column of two or more rows, 13 key column in a table without PRIMARY
-   KEY, 14 an index entry whose stored row key is not the owner's row id is met, 15 a FOREIGN KEY
-   would break): on the one-pass path and on the multi-pass path alike the implementation accepts
+   SET column = literal, ... [WHERE ...] with stmt_class = 0, i.e. outside the open class 15 (a
+   FOREIGN KEY would break) and under two side conditions that are limits of this proof, not
+   defects (12: a non-NULL value for a key column of two or more rows -- refused by the repaired
+   code, as the reference demands; 14: an index entry whose stored row key is not the owner's row
+   id is met -- unreachable since f7aa3d3 stores the row id; the former class 13, key column in a
+   table without PRIMARY KEY, is repaired and no longer excluded): on the one-pass path and on the
+   multi-pass path alike the implementation accepts
    iff the updated database satisfies every declared constraint -- NOT NULL, CHECK, uniqueness of
    updated key columns through the index probes --, leaves the reference's tables and keeps the
    invariant (the index maintenance keeps the unique indexes exact) *)
@@ -88,15 +95,16 @@ Proof. exact update_exact_l. Qed.
 (* HISTORIES: for every well-formed schema and EVERY history of INSERT, UPDATE and DELETE statements
    on both tables (updates of key columns, deletes followed by re-inserts of the same keys,
    RESTRICT / CASCADE parent deletes, multi-row statements ...), starting from the empty database:
-   if the history is in no recorded class and the implementation model reproduces what was
-   observed, then what was observed satisfies the property -- every write accepted iff the
-   resulting database satisfies every declared constraint, tables equal to the reference's after
-   every statement (Corr/C09.v known_class / model_agrees / spec_ok are the functions the
-   correspondence run evaluates on the real database's answers) *)
+   if the history is in no open class and meets the side conditions (side_class = hist_class = 0)
+   and the implementation model reproduces what was observed, then what was observed satisfies
+   the property -- every write accepted iff the resulting database satisfies every declared
+   constraint, tables equal to the reference's after every statement (Corr/C09.v model_agrees /
+   spec_ok are the functions the correspondence run evaluates on the real database's answers;
+   known_class, the open classes alone, is what the run may excuse) *)
 Theorem constraints_exact :
   forall sch steps,
     wf_schema sch ->
-    known_class (Hist sch steps) = 0 -> model_agrees (Hist sch steps) = true ->
+    side_class (Hist sch steps) = 0 -> model_agrees (Hist sch steps) = true ->
     spec_ok (Hist sch steps) = true.
 Proof. exact constraints_exact_l. Qed.
 
@@ -113,13 +121,21 @@ Theorem chk_class_zero_frag :
   forall names ci e, chk_class names ci e = 0 -> (atoms e <= 30)%nat -> chk_frag ci e = true.
 Proof. exact chk_class_zero_frag_l. Qed.
 
-(* every recorded finding class is a genuine failure: a history as the real database answered it,
+(* every OPEN finding class is a genuine failure: a history as the real database answered it,
    reproduced by the implementation model, refused by the reference, in the stated class *)
 Theorem constraints_refuted :
   refutes 1 wit_1 /\ refutes 2 wit_2 /\ refutes 3 wit_3 /\ refutes 4 wit_4 /\ refutes 10 wit_10 /\
-  refutes 11 wit_11 /\ refutes 12 wit_12 /\ refutes 13 wit_13 /\ refutes 14 wit_14 /\ refutes 15 wit_15 /\
-  refutes 16 wit_16 /\ refutes 17 wit_17 /\ refutes 18 wit_18 /\ refutes 19 wit_19.
+  refutes 15 wit_15.
 Proof. exact constraints_refuted_l. Qed.
+
+(* the witnesses of the eight classes repaired in /repo (6de60fd DML scans skip tombstones: 11;
+   f7aa3d3 UPDATE of a UNIQUE column: 12, 13, 14; dee8694 foreign key checks skip deleted rows and
+   NULL: 16, 17, 18; 8b67bbd CASCADE removes the children's index entries: 19), as the repaired
+   database answers them: reproduced by the model, accepted by the reference, in no open class *)
+Theorem former_classes_repaired :
+  repaired wit_11 /\ repaired wit_12 /\ repaired wit_13 /\ repaired wit_14 /\
+  repaired wit_16 /\ repaired wit_17 /\ repaired wit_18 /\ repaired wit_19.
+Proof. exact former_classes_repaired_l. Qed.
 
 (* non-vacuity: a well-formed schema with all four constraint kinds, reachable states satisfying
    the invariant are not needed to be exhibited separately -- the empty database does *)
@@ -139,10 +155,11 @@ Check insert_exact : forall sch st t (rows : list row), wf_schema sch -> Inv sch
 Check selection_exact : forall ds ts next w, tinv ds ts next -> uniq_ok ds (visible ts) = true -> has_dead (select_rows ds ts w) = false -> select_rows ds ts w = live_sel ts w.
 Check delete_exact : forall sch st t w, wf_schema sch -> Inv sch st -> stmt_class sch st (SDel t w) = 0 -> exists ok st', impl_step sch st (SDel t w) = (Some ok, st') /\ exec_write sch (abs_db st) (SDel t w) = (ok, abs_db st') /\ Inv sch st'.
 Check update_exact : forall sch st t sets w, wf_schema sch -> Inv sch st -> stmt_class sch st (SUpd t sets w) = 0 -> sets_ok (length (cols_of sch t)) sets = true -> exists ok st', impl_step sch st (SUpd t sets w) = (Some ok, st') /\ exec_write sch (abs_db st) (SUpd t sets w) = (ok, abs_db st') /\ Inv sch st'.
-Check constraints_exact : forall sch steps, wf_schema sch -> known_class (Hist sch steps) = 0 -> model_agrees (Hist sch steps) = true -> spec_ok (Hist sch steps) = true.
+Check constraints_exact : forall sch steps, wf_schema sch -> side_class (Hist sch steps) = 0 -> model_agrees (Hist sch steps) = true -> spec_ok (Hist sch steps) = true.
 Check model_refines_spec : forall sch h tr, wf_schema sch -> hist_class sch h = 0 -> spec_run sch db_empty h = Some tr -> impl_trace sch (d_empty sch) h = map (fun p => (Some (fst p), snd p)) tr.
 Check chk_class_zero_frag : forall names ci e, chk_class names ci e = 0 -> (atoms e <= 30)%nat -> chk_frag ci e = true.
-Check constraints_refuted : refutes 1 wit_1 /\ refutes 2 wit_2 /\ refutes 3 wit_3 /\ refutes 4 wit_4 /\ refutes 10 wit_10 /\ refutes 11 wit_11 /\ refutes 12 wit_12 /\ refutes 13 wit_13 /\ refutes 14 wit_14 /\ refutes 15 wit_15 /\ refutes 16 wit_16 /\ refutes 17 wit_17 /\ refutes 18 wit_18 /\ refutes 19 wit_19.
+Check constraints_refuted : refutes 1 wit_1 /\ refutes 2 wit_2 /\ refutes 3 wit_3 /\ refutes 4 wit_4 /\ refutes 10 wit_10 /\ refutes 15 wit_15.
+Check former_classes_repaired : repaired wit_11 /\ repaired wit_12 /\ repaired wit_13 /\ repaired wit_14 /\ repaired wit_16 /\ repaired wit_17 /\ repaired wit_18 /\ repaired wit_19.
 Check inv_initial : forall sch, Inv sch (d_empty sch).
 Print Assumptions spec_accepts_iff_valid.
 Print Assumptions inv_initial.
@@ -155,3 +172,4 @@ Print Assumptions constraints_exact.
 Print Assumptions model_refines_spec.
 Print Assumptions chk_class_zero_frag.
 Print Assumptions constraints_refuted.
+Print Assumptions former_classes_repaired.
